@@ -62,8 +62,10 @@ def purity_trace():
     progs = [[("call", 5, [0]), ("call", 9, [1, 0]), ("mutate", None, [0]), ("call", 5, [0]), ("call", 5, [0])] for _ in range(3)]
     traces = [c20.execute(entries, p, rng).events for p in progs]
     bad = copy.deepcopy(traces)
-    bad[0][2]["after"][0] += 1000                              # an argument changed under a call
-    bad[1][-1]["res"] += 1000                                  # same call, same arguments, different result
+    calls0 = [ev for ev in bad[0] if ev["op"] == "call" and ev["after"]]
+    calls0[0]["after"][0] += 1000                              # an argument changed under a call
+    calls1 = [ev for ev in bad[1] if ev["op"] == "call"]
+    calls1[-1]["res"] += 1000                                  # same call, same arguments, different result
     run = core.Run("C20", "quick", 1)
     _, rej0 = c20.validate(run, traces, "selftest/original")
     _, rej1 = c20.validate(run, bad, "selftest/corrupted")
@@ -96,6 +98,7 @@ def main():
     ok &= bug("RngIso", "RngIso_quick.cfg", [("BugCloneShares = FALSE", "BugCloneShares = TRUE")], "Isolated")
     ok &= bug("RngIso", "RngIso_quick.cfg", [("BugShCoupled = FALSE", "BugShCoupled = TRUE")], "NoDeviateUsedTwice")
     ok &= bug("Purity", "Purity_quick.cfg", [("BugInPlace = FALSE", "BugInPlace = TRUE")], "ArgsUnchanged")
+    ok &= bug("Purity", "Purity_quick.cfg", [("BugSharedResult = FALSE", "BugSharedResult = TRUE")], "NoHiddenState")
     ok &= bug("CovSched", "CovSched_quick.cfg", [("BugUnordered = FALSE", "BugUnordered = TRUE")], "SameAsSequential")
     ok &= bug("CovSched", "CovSched_quick.cfg", [("BugNoReset = FALSE", "BugNoReset = TRUE")], "NoCarryOver")
     ok &= bug("SlopeCov", "SlopeCov_quick.cfg", [('Variant = "repaired"', 'Variant = "snapshot"')], "EntryIsDef")
